@@ -439,6 +439,15 @@ def run(ctx):
     ctx.cov["synthetic"]["lists"] = n_cases
     ctx.cov["synthetic"]["lists_agreeing"] = n_good
 
+    ctx.cov["trusted_base"] += [
+        "translator harness/C20/abi2coq.py (clang JSON AST of the headers; purpose-built parser of src/lib.rs); its type "
+        "resolution is re-checked on every run by gcc and clang (_Static_assert(__builtin_types_compatible_p) on every "
+        "prototype/variable) and by rustc (fn-pointer coercion of every foreign fn, typed accessor of every field)",
+        "platform: x86-64 SysV LP64 (pointers 8/8); the layout model is compared with gcc, clang and rustc output on every run; "
+        "rustc's repr(C) = C layout is observed on these structs, not proved",
+        "the compatibility relation [compat] of coq/C20/AbiDefs.v (char ~ i8/u8, void* wildcard, pointer-to-array ~ "
+        "pointer-to-element, field name = or + '_', mirror name a_<name>, rust_only list) is a definition a reader must agree with",
+        "nm on objects compiled from the current src/*.c for symbol existence"]
     if not ctx.quick:
         rc, out = vlib.sh(["coqchk", "-silent", "-o", "-Q", ".", "LibaV", "LibaV.Properties_C20"], cwd=vlib.COQ, timeout=900)
         if rc != 0:
@@ -457,3 +466,19 @@ def replay(ctx, path):
     print("replay %s: declaration %s -> %s on %s" % (path, key, "STILL FAILS" if still else "no longer fails", vlib.REPO))
     ctx.finish()
     return 1 if still else 0
+
+
+META = {
+    "text": "Reflection proof in Rocq: abi_compatible (a boolean function on two declaration lists) is proved sound - "
+            "abi_compatible r c = true implies, for every repr(C) struct, equal kind/size/alignment/field count and per field "
+            "equal offset/size/alignment/compatible name, type and machine class, and for every extern fn equal arity, parameter "
+            "classes in order and result class; layout_wf and read_field_agree (bytes written through one declaration are read "
+            "identically through the other). Both declaration lists are REGENERATED on every run from the current src/lib.rs and "
+            "include/a/*.h (f64 and f32) and abi_compatible ... = true is re-checked by coqc (vm_compute) against them.",
+    "note": "Trusted: Coq kernel/vm_compute; the translator harness/C20/abi2coq.py (clang JSON AST + a parser for the lib.rs "
+            "subset), whose type resolution and the model's layout rule are cross-checked every run against gcc, clang and "
+            "rustc (sizeof/alignof/offsetof of every record, type-compatibility static asserts, nm for symbol existence); "
+            "x86-64 LP64; the definitions compat / rust_only a reader must agree with; repr(C) = C layout rule is observed "
+            "against rustc, not proved. No axioms.",
+    "technique": "Rocq proof by reflection (sound boolean checker, vm_compute on declarations regenerated from the sources by a translator)",
+}
